@@ -271,8 +271,9 @@ func (r *runner) exec(op string) {
 			res := withTimeout(3*opTimeout, func() string { return startClass(r.eng.Start(ctx, plID)) })
 			w.ev("r:start:" + res)
 		}()
-	case "holdrun": // the next UpdateStatus(Running) is held inside the status store (slow write)
+	case "holdrun", "holdst": // the next UpdateStatus(Running) — holdst:<status>: of that status — is held inside the status store (slow write)
 		w.mu.Lock()
+		w.holdWhich = arg
 		w.holdRun = make(chan struct{})
 		r.holdRunCh = w.holdRun
 		w.mu.Unlock()
